@@ -65,17 +65,18 @@ Proof.
 Qed.
 Lemma worst_block_bytes :
   match encode_one_block 12 long_tbl long_tbl bitstate0 0 (32767 :: repeat 16383 63) with
-  | Some st => length (b_out st) = 416%nat
-  | None => False
+  | inr st => length (b_out st) = 416%nat
+  | inl _ => False
   end.
 Proof. vm_compute. reflexivity. Qed.
 Lemma out_of_range_rejected :
-  encode_one_block 8 long_tbl long_tbl bitstate0 0 (0 :: 1024 :: repeat 0 62) = None /\
-  encode_one_block 8 long_tbl long_tbl bitstate0 0 (4096 :: repeat 0 63) = None.
-Proof. vm_compute. split; reflexivity. Qed.
+  encode_one_block 8 long_tbl long_tbl bitstate0 0 (0 :: 1024 :: repeat 0 62) = inl BadDctCoef /\
+  encode_one_block 8 long_tbl long_tbl bitstate0 0 (4096 :: repeat 0 63) = inl BadDctCoef /\
+  encode_one_block 8 long_tbl {| ehufco := repeat 0 257; ehufsi := repeat 0 257 |} bitstate0 0 (0 :: 5 :: repeat 0 62) = inl MissingCode.
+Proof. vm_compute. repeat split; reflexivity. Qed.
 
-(* F16 (present in the tree): a restart interval above 65535 stored directly is passed through unchanged *)
-Lemma restart_interval_unclamped :
+(* a restart interval above 65535 stored directly is limited to the 16 bits of the DRI marker *)
+Lemma restart_interval_clamped :
   exists u i, snd (initial_setup 8 8 1 1 8 false [{| c_h := 1; c_v := 1 |}]) = inr u /\
-              snd (per_scan_setup 8 8 false u 1 [0] 100000 0) = inr i /\ i_restart_interval i = 100000.
+              snd (per_scan_setup 8 8 false u 1 [0] 100000 0) = inr i /\ i_restart_interval i = 65535.
 Proof. eexists. eexists. vm_compute. repeat split. Qed.
